@@ -46,8 +46,8 @@ def matrix_oracle(accept):
         f = impl.split(';')
         if f[0] == 'NA':
             return None
-        if len(f) < 3:
-            return 'no complete transcript (crash/timeout): %s' % impl[-80:]
+        if len(f) < 3 or ' | ' in impl:
+            return 'no complete transcript (crash / timeout / sanitizer report): %s' % impl[-80:]
         ok = accept.get((sc, k))
         if ok is None:
             return None
@@ -148,6 +148,20 @@ def run(ctx):
     na = sum(1 for c in cells if run_m([c]) == ['NA;same;usable']) if False else None
     dm.report()
     # open findings of this property are probed by the matrix cells themselves (signature match)
+    if not quick:
+        # "never by memory corruption": the same matrix on an AddressSanitizer build (an ASan report aborts the
+        # forked case: EXIT/CRASH marker = incomplete transcript = violation)
+        try:
+            ctx.build_lib('asan', cflags=['-fsanitize=address', '-fno-omit-frame-pointer', '-O1'])
+            ha = ctx.build_harness('err_matrix.c', tag='asan', name='err_matrix_asan', extra=['-fsanitize=address', '-fno-omit-frame-pointer'])
+            env = dict(os.environ, ASAN_OPTIONS='detect_leaks=0:abort_on_error=0:exitcode=99')
+            da = vlib.Differential(ctx, 'matrix_asan', lambda cs: ctx.run_lines(ha, cs, env=env)[1], None, lambda cs: [''] * len(cs),
+                                   matrix_oracle(accept), None, classify=lambda c, i, why: matrix_signature(c, i))
+            da.feed(cells)
+            da.report()
+            ctx.cov['asan_matrix_cells'] = len(cells)
+        except vlib.HarnessBuildError as e:
+            ctx.notes.append('ASan build of the matrix harness failed: %s' % str(e)[-300:])
 
     # ---------------- part 3: invalid-heavy histories on the faithful models
     # sequences (C04 machinery)
